@@ -388,6 +388,12 @@ class Report:
 
     def finish(self, level='proof'):
         os.makedirs(REPLAY, exist_ok=True)
+        import glob
+        for old in glob.glob(os.path.join(REPLAY, '%s-*.json' % self.pid)):
+            try:
+                os.remove(old)
+            except OSError:
+                pass
         lines = []
         for sig, (k, detail) in sorted(self.known_hits.items()):
             lines.append('KNOWN-FINDING: property=%s %s [%s]' % (self.pid, k.get('what', ''), sig))
